@@ -288,18 +288,18 @@ INPLACE_OK_RECEIVERS = {
 }
 
 
-def r4_out_of_place(ctx):
-    ctx.rule("C01.R4a", "State.put writes only through self[...] and uses out-of-place tensor operations", 3)
-    ctx.rule("C01.R4b", "no in-place tensor operation on a value read from a State (package-wide, intra-procedural alias analysis)", 8)
+def state_put_out_of_place(ctx, rid="C01.R4a", why="it rewrites a cached value in place (the REF snapshot and every state sharing the tensor see it, no child is invalidated there)"):
+    """State.put writes only through self[...] (fork + invalidation) and nothing in the State class uses an in-place tensor method."""
+    ctx.rule(rid, "State.put writes only through self[...] and uses out-of-place tensor operations", 3)
     ix = ctx.ix
-    f = ix.func(STATE, "State.put", "C01.R4a")
+    f = ix.func(STATE, "State.put", rid)
     for st in statements(f.node):
         for t in store_targets(st):
             if isinstance(st, (ast.Assign, ast.AugAssign)):
                 ok = isinstance(t, ast.Subscript) and U(t.value) == "self" and not isinstance(st, ast.AugAssign)
                 if isinstance(t, ast.Name):
                     continue
-                ctx.check(ok, "C01.R4a", f, st, "write goes through State.__setitem__ (fork + invalidation)",
+                ctx.check(ok, rid, f, st, "write goes through State.__setitem__ (fork + invalidation)",
                           "State.put writes without going through self[...] = (no invalidation / snapshot)")
     # no in-place tensor method anywhere in the State class - called, or merely referenced (`m = v.index_put_ if ... else v.index_put`)
     cls_state = ix.find_class("State")
@@ -308,9 +308,13 @@ def r4_out_of_place(ctx):
             continue
         for a_ in walk_no_nested(g.node):
             if isinstance(a_, ast.Attribute) and isinstance(a_.ctx, ast.Load) and a_.attr.endswith("_") and not a_.attr.endswith("__") and not a_.attr.startswith("_") and len(a_.attr) > 1:
-                ctx.violation("C01.R4a", g, a_, f"in-place tensor method `{a_.attr}` in State.{g.name}: it rewrites a cached value in place (the REF snapshot and every state sharing the tensor see it, "
-                              "no child is invalidated there)")
-    ctx.ok("C01.R4a", f, f.node, "no in-place tensor method (called or referenced) in the State class")
+                ctx.violation(rid, g, a_, f"in-place tensor method `{a_.attr}` in State.{g.name}: " + why)
+    ctx.ok(rid, f, f.node, "no in-place tensor method (called or referenced) in the State class")
+
+
+def r4_out_of_place(ctx):
+    state_put_out_of_place(ctx)
+    ctx.rule("C01.R4b", "no in-place tensor operation on a value read from a State (package-wide, intra-procedural alias analysis)", 8)
     # R4b: package-wide alias analysis (shared with C03)
     from ._shared import inplace_on_state_values
     sites, holders = inplace_on_state_values(ctx)
@@ -400,6 +404,14 @@ def r6_purity(ctx):
             bad += 1
             ctx.violation("C01.R6b", g, node, f"{desc} is reachable from the definition of a derived variable ({' -> '.join(cg.path_to(reach, k)[-4:])})")
     ctx.ok("C01.R6b", (STATE, "<derived variables>"), None, f"{len(reach)} functions reachable from {len(roots)} definitions: no draw, no global write", construct="effects of definitions")
+    # ... and does not write into its inputs: the State hands its own tensors to the definitions, so an in-place operation on a (possible)
+    # view of an argument (`x.value.to(dtype)` returns x.value itself when the dtype already matches) rewrites an independent value on a read
+    from ._shared import inplace_on_argument_views
+    ctx.rule("C01.R6c", "nothing reachable from a derived-variable definition modifies (a possible view of) its arguments in place", 1)
+    sites, _ = inplace_on_argument_views(ctx, [ctx.ix.funcs[k] for k in reach])
+    for fn, node, desc in sites:
+        ctx.violation("C01.R6c", fn, node, desc + f" ({' -> '.join(cg.path_to(reach, fn.key)[-3:])}): reading the derived variable rewrites a value held by the State, and nothing is invalidated")
+    ctx.ok("C01.R6c", (STATE, "<derived variables>"), None, f"{len(reach)} functions reachable from the definitions: none modifies a view of its arguments", construct="inputs of definitions untouched")
 
 
 def rules(ctx):
@@ -423,6 +435,7 @@ def rules(ctx):
 
 S = "src/leaspy/variables/state.py"
 VARIANTS = [
+    V("definition-writes-into-its-input", "src/leaspy/variables/distributions.py", "                torch.clone(x.value)\n", "                x.value.to(dtype=time.dtype)\n", "C01.R6c"),
     V("silent-clone-shallow-copy", S, "        cloned._values = copy.deepcopy(self._values)", "        cloned._values = dict(self._values)", None),
     V("put-in-place-when-no-fork", S, "        self[variable_name] = self[variable_name].index_put(", "        self[variable_name] = (self[variable_name].index_put_ if self.auto_fork_type is None else self[variable_name].index_put)(", "C01.R4a"),
     V("direct-children", S, "sorted_children = self.dag.sorted_children[name]", "sorted_children = self.dag.direct_children[name]", "C01.R2"),
